@@ -12,7 +12,8 @@ LEAN_MODULES = ["NdInterp.Props.C08"]
 THEOREM_FILES = [("NdInterp/Props/C08.lean", "C08_")]
 RULE = ("groups on the real code: an n-d interpolator (data Ix1..Ix6 static and IxDyn; trailing shapes incl. non-square, length-1 and "
         "length-0 axes; Linear, CubicSpline with whole-data-set boundaries, Periodic and Individual arrays with a different condition per "
-        "lane, Bilinear; all query shapes) against (a) the 1-D / 2-D interpolator built from each single lane with that lane's boundary — "
+        "lane or blocks of lanes sharing one, Bilinear; all query shapes; n-d data in every memory layout incl. permuted/reversed trailing "
+        "axes, a third of the groups through interp_array_into with a buffer of another layout) against (a) the 1-D / 2-D interpolator built from each single lane with that lane's boundary — "
         "lane j of the n-d result must be identical (exact at Q, bit for bit at f64), which also checks the multi-index <-> lane flattening — "
         "and (b) the same n-d interpolator with every other lane (values and boundary conditions) replaced at random: lane j unchanged. "
         "The n-d cases also go through the model correspondence. non-trivial = data with >= 2 lanes")
@@ -31,7 +32,7 @@ def lane_bc(bc, lanes, j):
 
 def build(rng, tier):
     lines, groups = [], []   # group: (idx_nd, [(lane, idx_1d)], [idx_variant], L, nq, lanesel)
-    for _ in range(60 if tier == "quick" else 1500):
+    for _ in range(120 if tier == "quick" else 1500):
         S = rng.choice(["Q", "F"])
         kind = rng.choice(["lin", "spl", "spl", "bil"])
         ext = rng.random() < 0.3
@@ -86,10 +87,19 @@ def build(rng, tier):
                 flat[(n - 1) * L:] = flat[:L]
         else:
             bc, lanes = None, None
-        mk = lambda sh, fl, b, dt="dyn": i1_line(S, xs, sh, fl, ("lin", ext) if kind == "lin" else ("spl", ext, b), e_array(S, qshape, qs), dtag=dt)
+        def mk(sh, fl, b, dt="dyn", nd_=False):
+            # the n-d interpolator is exercised with every data layout (permuted / reversed trailing axes included) and, for a
+            # third of the groups, through interp_array_into with a buffer of another layout
+            e = e_array(S, qshape, qs)
+            dl = "c"
+            if nd_:
+                dl = rng.choice(gen.LAYS_ND)
+                if rng.random() < 0.35:
+                    e = gen.e_ainto(S, qshape, qshape + sh[1:], qs, blay=rng.choice(gen.LAYS_ND))
+            return i1_line(S, xs, sh, fl, ("lin", ext) if kind == "lin" else ("spl", ext, b), e, dtag=dt, dlay=dl)
         dtag = "sta" if len(shape) <= 6 and rng.random() < 0.6 else "dyn"
         nd = len(lines)
-        lines.append(mk(shape, flat, bc, dtag))
+        lines.append(mk(shape, flat, bc, dtag, True))
         singles = []
         for j in range(L):
             col = [flat[i * L + j] for i in range(n)]
@@ -108,7 +118,7 @@ def build(rng, tier):
                         rbs = [r if q == j else (c02.rand_sb(rng, S), c02.rand_sb(rng, S)) for q, r in enumerate(bc[2])]
                         b2 = ("ind", bc[1], rbs)
                 variants.append(len(lines))
-                lines.append(mk(shape, f2, b2, dtag))
+                lines.append(mk(shape, f2, b2, dtag, True))
         groups.append((nd, singles, variants, L, nq, j))
     return lines, groups
 
